@@ -70,7 +70,7 @@ type ContractSet struct {
 	tinvs map[string][]*Clause // pkgpath + "." + type name -> invariants over `self`
 }
 
-var clauseRe = regexp.MustCompile(`^(requires|ensures|defines|before|modifies|inline|trusted|pure|noframe|loop|let|func|spec|replay|type|lemma)\b\s*(.*)$`)
+var clauseRe = regexp.MustCompile(`^(requires|ensures|defines|use|before|modifies|inline|trusted|pure|noframe|loop|let|func|spec|replay|type|lemma)\b\s*(.*)$`)
 
 func loadContracts(repo string) (*ContractSet, error) {
 	cs := &ContractSet{byKey: map[string]*Contract{}, specs: map[string]*SpecFunc{}, tinvs: map[string][]*Clause{}}
@@ -205,7 +205,7 @@ func (cs *ContractSet) parseFile(repo, path string) error {
 			sf.Pkg = pkgPath
 			pendingSpec = sf
 			last = &sf.Src
-		case "requires", "ensures", "defines":
+		case "requires", "ensures", "defines", "use":
 			if cur == nil {
 				return fmt.Errorf("%s:%d: clause outside func", path, ln+1)
 			}
